@@ -231,7 +231,12 @@ def validate_trace(moddir, module, cfg, trace_path, timeout=1200, branching=Fals
                 break
             # no DONE: invariant violation or evaluation error at some line
             m = None
-            if r.error and ("Invariant" in r.error or "violated" in r.error):
+            hw = [x for x in r.printed if x.startswith("VERIF-HWM ")]
+            if hw and not (r.error and "Invariant" in r.error) and "Model checking completed" in r.out:
+                # branching trace spec: no behaviour consumed line hwm
+                m = int(hw[-1].split()[1]) + 1
+                why = "no behaviour of the specification explains this event (search exhausted)"
+            if m is None and r.error and ("Invariant" in r.error or "violated" in r.error):
                 ls = re.findall(r"^/?\\?\s*l = (\d+)", r.out, re.M)
                 if ls:
                     m = int(ls[-1])
